@@ -468,7 +468,15 @@ func (c *TermCtx) tryInline(f *ssa.Function, args []*Term) *Term {
 	b := f.Blocks[0]
 	for _, in := range b.Instrs {
 		switch in := in.(type) {
-		case *ssa.Store, *ssa.MapUpdate, *ssa.Send, *ssa.Go, *ssa.Defer, *ssa.Panic, *ssa.RunDefers:
+		case *ssa.Store:
+			// the spill of a struct-valued parameter (value receiver) into its local cell, which is only read
+			if a, ok := in.Addr.(*ssa.Alloc); ok {
+				if _, isParam := in.Val.(*ssa.Parameter); isParam && singleAssigned(a) == in.Val {
+					continue
+				}
+			}
+			return nil
+		case *ssa.MapUpdate, *ssa.Send, *ssa.Go, *ssa.Defer, *ssa.Panic, *ssa.RunDefers:
 			return nil
 		case *ssa.Call:
 			// only pure, inlinable or library-pure calls
@@ -483,6 +491,9 @@ func (c *TermCtx) tryInline(f *ssa.Function, args []*Term) *Term {
 				return nil
 			}
 		case *ssa.Alloc:
+			if _, isParam := singleAssigned(in).(*ssa.Parameter); isParam && !in.Heap {
+				continue
+			}
 			return nil
 		}
 	}
@@ -497,6 +508,10 @@ func (c *TermCtx) tryInline(f *ssa.Function, args []*Term) *Term {
 	for i, p := range f.Params {
 		if i < len(args) {
 			sub.subst[p] = args[i]
+			// a struct passed by value as a copy of *x: its fields are the fields of x at the call
+			if _, isStruct := p.Type().Underlying().(*types.Struct); isStruct && args[i].Op == "load" && len(args[i].Args) == 1 {
+				sub.subst[p] = args[i].Args[0]
+			}
 		}
 	}
 	if len(ret.Results) == 1 {
